@@ -21,7 +21,7 @@ func init() { register(c09{}) }
 func (c09) ID() string    { return "C09" }
 func (c09) Level() string { return "exploration" }
 func (c09) Rule() string {
-	return "fault-driven: valid generated or seed files (PNG/JPEG/WebP/ICC, ICC profiles also embedded in images) receive 1-3 stored-byte faults (length/count/offset/dimension fields overwritten with boundary values incl. sums that wrap 2^32, bit flips, type overwrites, stored truncation, self-splice), plus amplification workloads (mluc records sharing one string), random bytes behind valid signatures and truncations; the enumerated part walks every length/count/offset/dimension field of every corpus file x every boundary value. Each case runs in a worker process that executes one case at a time: Load (specific + auto), ICCProfileData, ICCProfile, Description / ReadProfile + Description. Invariants: no panic escapes, TotalAlloc delta <= 4 MiB + 32*len(input) (4200*len for PNG carrying iCCP: deflate expands at most 1032:1), under FULL delivery at most 100+2*len(input) Read calls, watchdog on the whole run. Non-trivial: a stored fault or amplification was applied and the code under test consumed >= 1 byte; distinct = hash(input bytes, calls, delivery log)."
+	return "fault-driven: valid generated or seed files (PNG/JPEG/WebP/ICC, ICC profiles also embedded in images) receive 1-3 stored-byte faults (length/count/offset/dimension fields overwritten with boundary values incl. sums that wrap 2^32, bit flips, type overwrites, stored truncation, self-splice), plus amplification workloads (mluc records sharing one string, tags sharing one data area), random bytes behind valid signatures and truncations; the enumerated part walks every length/count/offset/dimension field of every corpus file x every boundary value. Each case runs in a worker process that executes one case at a time: Load (specific + auto), ICCProfileData, ICCProfile, Description / ReadProfile + Description. Invariants: no panic escapes, TotalAlloc delta <= 4 MiB + 32*len(input) (4200*len for PNG carrying iCCP: deflate expands at most 1032:1), under FULL delivery at most 100+2*len(input) Read calls, watchdog on the whole run. Non-trivial: a stored fault or amplification was applied and the code under test consumed >= 1 byte; distinct = hash(input bytes, calls, delivery log)."
 }
 func (c09) Exhaustive(tier string) string {
 	return "the field x boundary-value matrix over the corpus files (enumerated part); everything else is seeded"
@@ -151,7 +151,7 @@ func (c09) Prefix(tier string, i int64) []uint64 {
 	return []uint64{0, uint64(x.file), uint64(x.field), uint64(x.value), uint64(x.loader)}
 }
 
-var c09weights = InputWeights{Corpus: 1, Valid: 1, ICCDamaged: 2, Damaged: 10, Random: 1, SigJunk: 2, Polyglot: 1, Empty: 0, ShortSOF: 1}
+var c09weights = InputWeights{Corpus: 1, Valid: 1, ICCDamaged: 2, Damaged: 10, Random: 1, SigJunk: 2, Polyglot: 1, Empty: 0, ShortSOF: 1, Soup: 6}
 
 func sniffLoader(b []byte) Loader {
 	switch {
@@ -297,12 +297,16 @@ func (c09) Run(t *tape.Tape, st *Stats) *Violation {
 				prof, d = ApplyStoredFault(t, prof, p.Fields)
 				faults = append(faults, "in embedded profile: "+d)
 				desc = p.Summary
-			} else {
+			} else if t.Bool() {
 				nrec := [...]int{2, 40, 300, 1500}[t.Intn(4)]
 				sb := [...]int{2, 200, 4000, 30000}[t.Intn(4)]
 				p := refmodel.BuildMLUCFanIn(nrec, sb)
 				prof, desc = p.Bytes, p.Summary
 				faults = append(faults, "amplification: shared mluc string")
+			} else {
+				p := refmodel.BuildTagFanIn([...]int{2, 40, 300, 1500}[t.Intn(4)], [...]int{200, 4000, 30000}[t.Intn(3)])
+				prof, desc = p.Bytes, p.Summary
+				faults = append(faults, "amplification: tags sharing one data area")
 			}
 			var f *refmodel.File
 			switch t.Intn(3) {
@@ -331,11 +335,19 @@ func (c09) Run(t *tape.Tape, st *Stats) *Violation {
 			desc = f.Truth.Format + " carrying " + desc
 			faulted = true
 		default:
-			nrec := [...]int{1, 2, 40, 300, 1500}[t.Intn(5)]
-			sb := [...]int{0, 2, 200, 4000, 30000}[t.Intn(5)]
-			p := refmodel.BuildMLUCFanIn(nrec, sb)
+			var p *refmodel.ICCProfile
+			if t.Bool() {
+				nrec := [...]int{1, 2, 40, 300, 1500}[t.Intn(5)]
+				sb := [...]int{0, 2, 200, 4000, 30000}[t.Intn(5)]
+				p = refmodel.BuildMLUCFanIn(nrec, sb)
+				faults = append(faults, "amplification: shared mluc string")
+			} else {
+				nt := [...]int{1, 2, 40, 300, 1500}[t.Intn(5)]
+				ab := [...]int{12, 200, 4000, 30000}[t.Intn(4)]
+				p = refmodel.BuildTagFanIn(nt, ab)
+				faults = append(faults, "amplification: tags sharing one data area")
+			}
 			data, fields, desc, class, isICC = p.Bytes, p.Fields, p.Summary, "icc-amplification", true
-			faults = append(faults, "amplification: shared mluc string")
 			faulted = true
 		}
 	}
